@@ -145,7 +145,12 @@ def gen_fp(rng, n, tier, fields=("Fq", "Fr")):
             L.append("fp_get %s %s" % (F, hx(a, bits)))
             L.append("fp_leg %s %s" % (F, hx(a, bits)))
             L.append("fp_pred %s %s %s" % (F, hx(a, bits), hx(a, bits)))
-        for a in rng.sample(singles, min(len(singles), max(12, n // 2))) + [0, one]:
+        # stored values that lead the binary extended Euclid through u or v = 1 + k*2^W (W = 32, 64; the loop's exit test `is_one` must
+        # look at EVERY word): t itself, t*2^j (halved down to t), p - t (v becomes t after one subtraction)
+        gcd_ties = []
+        for t_ in ((1 << 32) + 1, (1 << 64) + 1, (3 << 32) + 1, (1 << 96) + 1, (rng.getrandbits(20) << 64) + 1, (rng.getrandbits(30) << 32) + 1, (1 << (bits - 3)) + 1):
+            gcd_ties += [t_, (t_ << rng.randrange(1, 40)) % p, p - t_, (p - (t_ << 3)) % p]
+        for a in rng.sample(singles, min(len(singles), max(12, n // 2))) + [0, one] + [g_ for g_ in gcd_ties if 0 < g_ < p]:
             al = rng.choice(["n", "a"])
             L.append("fp_inv %s %s %s" % (F, hx(a, bits), al))
             if F == "Fq": L.append("fp_sqrt %s %s %s" % (F, hx(a, bits), "n"))   # Fr's Tonelli-Shanks loops on non-squares: out of the property's domain
